@@ -198,6 +198,7 @@ def make_judges(ctx):
 def floors(tier):
     cells = [('mode-route', r, o, rt) for r in G.ROUNDINGS for o in G.OVERFLOWS for rt in ('constructor', 'call', 'set_val', 'setitem')]
     cells += [('family', f) for f in ('pyint', 'pyfloat', 'str', 'npf', 'npi', 'npu', 'arrf', 'arri', 'arru', 'list', 'tuple', 'pycomplex')]
+    cells += [('noncontiguous_carrier', c) for c in ('1d', '2d', 'bigfloat2d')]
     return cells
 
 
@@ -304,6 +305,10 @@ def run_case(case, ctx):
                 except (OverflowError, ValueError):
                     continue
                 _store_all_routes(Fxp, car, G.container_shape(cont, len(ok)), s, w, nf, r, o)
+                if cont in ('1d', '2d') and kind != 'str' and (i // 10) % 3 == 0:
+                    # the same array in another memory layout (Fortran order, negative stride, strided view)
+                    _store_all_routes(Fxp, G.noncontig(car, rng), G.container_shape(cont, len(ok)), s, w, nf, r, o, routes=('constructor', 'set_val', 'setitem'))
+                    ctx.floor_hit(('noncontiguous_carrier', cont))
     elif k == 'bigfloat':
         s, w, nf = G.core_format(rng)
         nf = abs(nf) % (w + 9)
@@ -328,6 +333,13 @@ def run_case(case, ctx):
         mixed = np.array([mags[0]] + small + [mags[1]])
         _store_all_routes(Fxp, mixed, (len(mixed),), s, w, nf, r, 'saturate', routes=('constructor', 'set_val'))
         _store_all_routes(Fxp, list(mixed), (len(mixed),), s, w, nf, r, 'saturate', routes=('constructor', 'call'))
+        # 2-D arrays of mixed magnitudes (one element beyond 2^64 forces the element-wise path) in C order and in other memory layouts
+        m2 = np.array(([mags[0]] + small + [mags[1], 0.5, -0.25, mags[2]])[:6]).reshape(2, 3)
+        _store_all_routes(Fxp, m2, (2, 3), s, w, nf, r, 'saturate', routes=('constructor', 'set_val', 'setitem'))
+        for how in ('F', 'neg', 'strided'):
+            _store_all_routes(Fxp, G.noncontig(m2, rng, how), (2, 3), s, w, nf, r, 'saturate', routes=('constructor', 'call', 'set_val', 'setitem'))
+        _store_all_routes(Fxp, m2.T, (3, 2), s, w, nf, r, 'saturate', routes=('constructor', 'set_val'))
+        ctx.floor_hit(('noncontiguous_carrier', 'bigfloat2d'))
     elif k == 'complex':
         s, w, nf = G.core_format(rng, max_word=40)
         r, o = G.MODES[i % 10]
